@@ -2459,7 +2459,67 @@ pub fn c18_many_yielded_then_kill(rec: &mut Rec, n_req: usize) {
     sim.w.teardown();
 }
 
+/// A connection that is DEAD but still registered for output when the kill switch fires: its client shut its read side
+/// down, an answer was supplied and the write failed, another of its requests is still unanswered (so it is kept), and
+/// nothing ever re-registered it — every later batch carries its `OUT` event ahead of the kill switch's. Shutdown wins
+/// all the same: every poll reports it, none fails or panics.
+pub fn c18_dead_connection_registered_for_output(rec: &mut Rec, rng: &mut Rng, kill_first: bool, n_req: usize) {
+    rec.case("kill-switch-with-a-dead-connection-awaiting-output");
+    rec.nontrivial();
+    let mut cfg = Cfg::base("C18");
+    cfg.with_kill = true;
+    let mut sim = Sim::new(rec, cfg);
+    let a = sim.connect(rec);
+    let _b = sim.connect(rec);
+    sim.poll(rec);
+    sim.poll(rec);
+    let mut bytes = vec![];
+    for _ in 0..n_req {
+        let j = sim.plans[a].next_req;
+        sim.plans[a].next_req += 1;
+        let t = tag(a, j);
+        bytes.extend_from_slice(format!("GET {} HTTP/1.1\r\n\r\n", t).as_bytes());
+        sim.plans[a].sent.push(t);
+    }
+    sim.w.send(rec, a, &bytes);
+    sim.poll(rec);
+    sim.poll(rec);
+    sim.w.shutdown(rec, a, Shutdown::Read);
+    if kill_first {
+        sim.w.signal_kill(rec);
+    }
+    if !sim.w.held.is_empty() {
+        sim.respond(rec, rng, 0);
+    }
+    if !kill_first {
+        // the write fails in an ordinary poll; the connection stays (requests in flight) with its OUT registration
+        sim.poll(rec);
+        sim.poll(rec);
+        sim.w.signal_kill(rec);
+    }
+    let before = sim.w.shutdown_polls;
+    for _ in 0..4 {
+        if !sim.w.ready() {
+            rec.oracle_fail("C18", "the epoll descriptor is not ready although the kill switch was signalled", &sim.w.log);
+            break;
+        }
+        sim.w.poll(rec);
+        if sim.w.server.is_none() {
+            break;
+        }
+    }
+    if sim.w.shutdown_polls < before + 4 || sim.w.nonshutdown_after_kill > 0 || !sim.w.poll_errors.is_empty() {
+        rec.oracle_fail("C18", &format!("a dead connection ({} requests, one answered, the write failed) is still registered for output and the kill switch is signalled: {} of 4 polls reported shutdown, {} did not, errors {:?}", n_req, sim.w.shutdown_polls - before, sim.w.nonshutdown_after_kill, sim.w.poll_errors), &sim.w.log);
+    }
+    sim.w.teardown();
+}
+
 pub fn c18(rec: &mut Rec, rng: &mut Rng, thorough: bool) {
+    for kill_first in [false, true] {
+        for n_req in [2usize, 3] {
+            c18_dead_connection_registered_for_output(rec, rng, kill_first, n_req);
+        }
+    }
     for n_req in [8usize, 40, 130] {
         c18_many_yielded_then_kill(rec, n_req);
     }
